@@ -25,6 +25,7 @@ def fresh_value(I, st, ty, crate, name, depth=0, opts=None):
         v = I.fresh(name)
         lo, hi = INT_RANGE[ty]
         st.add(z3.And(v >= lo, v <= hi))
+        I.set_bounds(v, lo, hi)
         return v
     if ty == 'bool':
         return I.fresh(name, 'bool')
@@ -40,10 +41,12 @@ def fresh_value(I, st, ty, crate, name, depth=0, opts=None):
     if b == 'Uint128':
         v = I.fresh(name)
         st.add(z3.And(v >= 0, v <= U128_MAX))
+        I.set_bounds(v, 0, U128_MAX)
         return U128(v)
     if b == 'Decimal':
         v = I.fresh(name)
         st.add(z3.And(v >= 0, v <= U128_MAX))
+        I.set_bounds(v, 0, U128_MAX)
         return DEC(v)
     if b == 'Uint64':
         v = I.fresh(name)
